@@ -24,7 +24,9 @@ use genapi::GenApiReg;
 type Camera = cameleon::Camera<SharedControlHandle, StreamHandle, SharedDefaultGenApiCtxt>;
 
 pub(crate) fn enumerate_u3v_device() -> GenTlResult<Vec<U3VDeviceModule>> {
-    todo!()
+    // Device enumeration is not implemented yet. Report that to the caller instead of
+    // panicking: a panic inside an `extern "C"` entry point aborts the whole process.
+    Err(GenTlError::NotImplemented)
 }
 
 pub(crate) struct U3VDeviceModule {
